@@ -57,6 +57,13 @@ class ExprMixin:
         return v
 
     def lookup_name(self, name, env):
+        dv = env.cellnames.get('#derived')
+        if dv and name in dv and name not in getattr(env, 'bound', ()):
+            cid, delta, tn = dv[name]
+            if cid in env.state.cells and is_term(env.state.cells[cid]):
+                v = env.state.cells[cid]
+                return (T.add(v, T.I(delta)) if delta else v), tn
+            raise Unsupported('variable behind %s is not allocated at this point' % name)
         if env.prefer_cells and name in env.cellnames and name not in getattr(env, 'bound', ()):
             # loop invariants speak about the current value of a variable (parameters are mutable in Go);
             # old(x) gives the entry value
